@@ -42,3 +42,25 @@ Definition valid_interval (self : string) : option (Z * Z * Z) :=
 
 Definition valid_value (self : string) (v : Z) : bool :=
   match valid_interval self with Some (_, lo, hi) => (lo <=? v) && (v <=? hi) | None => false end.
+
+(* the signed NonZero types: every value of the named primitive but 0 — not an interval, so no pair
+   MIN_VALUE / MAX_VALUE can be right for them *)
+Definition nonzero_signed_base (t : string) : option string :=
+  if String.eqb t "NonZeroI8" then Some "i8" else if String.eqb t "NonZeroI16" then Some "i16"
+  else if String.eqb t "NonZeroI32" then Some "i32" else if String.eqb t "NonZeroI64" then Some "i64"
+  else if String.eqb t "NonZeroI128" then Some "i128" else if String.eqb t "NonZeroIsize" then Some "isize"
+  else None.
+
+(* is the integer [v] a valid value of [self]?  None: this reading of the language does not know the type *)
+Definition known_valid (self : string) (v : Z) : option bool :=
+  match valid_interval self with
+  | Some (_, lo, hi) => Some ((lo <=? v) && (v <=? hi))
+  | None =>
+      match nonzero_signed_base self with
+      | Some b => match int_range b with
+                  | Some (lo, hi) => Some ((lo <=? v) && (v <=? hi) && negb (v =? 0))
+                  | None => None
+                  end
+      | None => None
+      end
+  end.
